@@ -254,8 +254,22 @@ def run(ck):
                 if not eng.entails(facts, L(n) - (L(used) - L(off))):
                     bad = 'n <= unread count not established before framing'
                 fo = p.mem.get(off, off)
-                if not eq(facts, L(fo), L(off) + L(n)):
-                    bad = "offset' = %s, expected offset + n" % fmt(fo)
+                # the n octets are consumed when they were framed; a refusal (length beyond the kind's maximum, a failing
+                # sink) has emitted no frame and must leave them where they are
+                failed = eng.entails(facts, L(c.result) + 1)
+                worked = eng.entails(facts, -L(c.result))
+                if failed:
+                    if fo != off:
+                        bad = ('the buffer is advanced by n although %s refused (result < 0): nothing was framed, yet the n octets are gone from the buffer' % callee)
+                elif worked:
+                    if not eq(facts, L(fo), L(off) + L(n)):
+                        bad = "offset' = %s, expected offset + n" % fmt(fo)
+                else:
+                    if fo != off:
+                        bad = ('the buffer is advanced by n whatever %s reports: on a refusal (length beyond the kind\'s maximum, failing sink) nothing was framed, '
+                               'yet the n octets are gone from the buffer' % callee)
+                    else:
+                        bad = 'offset is not advanced after successful framing'
             else:
                 if p.mem.get(off, off) != off:
                     bad = 'offset modified by the whole-content variant'
